@@ -99,4 +99,27 @@ VARIANTS = [
      'edits': [('run.py', "    options = loadOptions(list(optargs) if optargs else None)", "    options = loadOptions(*(optargs or []))")]},
     {'name': 'grid-splatted-from-unknown-sequence', 'rule': 'C12.R4',
      'edits': [('molecular_container.py', "        charge_profile: List[List[float]] = []\n        for ph in make_grid(*grid):", "        charge_profile: List[List[float]] = []\n        for ph in make_grid(*self.options.grid):")]},
+    {'name': 'bond-appended-without-membership-test', 'rule': 'C12.L1',
+     'edits': [('bonds.py', "        if atom1 not in atom2.bonded_atoms:\n            atom2.bonded_atoms.append(atom1)\n        if atom2 not in atom1.bonded_atoms:\n            atom1.bonded_atoms.append(atom2)", "        atom2.bonded_atoms.append(atom1)\n        atom1.bonded_atoms.append(atom2)")]},
+    {'name': 'others-by-comprehension-silent', 'expect': 'pass',
+     'edits': [(P, """                other_atom_indices = []
+                for i, bonded_atom in enumerate(
+                        atom.bonded_atoms[0].bonded_atoms):
+                    if bonded_atom != atom:
+                        other_atom_indices.append(i)
+""", """                other_atom_indices = [
+                    i for i, bonded_atom in enumerate(
+                        atom.bonded_atoms[0].bonded_atoms)
+                    if bonded_atom != atom]
+""")]},
+    {'name': 'others-filtered-by-element', 'rule': 'C12.R1',
+     'edits': [(P, """                    if bonded_atom != atom:
+                        other_atom_indices.append(i)
+""", """                    if bonded_atom.element != 'H':
+                        other_atom_indices.append(i)
+""")]},
+    {'name': 'second-assert-after-store', 'rule': 'C12.R2',
+     'edits': [('coupled_groups.py', "        # Swap interactions and re-calculate pKa values\n", "        self.parameters = group1.parameters\n        assert self.parameters is not None\n        # Swap interactions and re-calculate pKa values\n")]},
+    {'name': 'second-assert-repeats-silent', 'expect': 'pass',
+     'edits': [('coupled_groups.py', "        # Swap interactions and re-calculate pKa values\n", "        assert self.parameters is not None\n        # Swap interactions and re-calculate pKa values\n")]},
 ]
